@@ -890,7 +890,7 @@ fn upper(func: &AggregateFunction) -> String {
 }
 
 /// Pre-order walk of an expression tree.
-fn visit_expr(expr: &Expr, f: &mut impl FnMut(&Expr)) {
+pub(super) fn visit_expr(expr: &Expr, f: &mut impl FnMut(&Expr)) {
     f(expr);
     match expr {
         Expr::Column(_) | Expr::Literal(_) | Expr::Wildcard | Expr::QualifiedWildcard(_) => {}
